@@ -6,6 +6,24 @@
 //     Kani concrete-playback witness (env VERIF_WITNESS = comma separated bytes, consumed in draw order,
 //     little endian) and `chk` records the failed label, so the *same* postcondition is re-evaluated on the
 //     real code with the real SIMD intrinsics and no stubs.
+// chk!(s, cond, "label"): the postcondition clause `label`. Kani: an assertion whose message is the label (it is the
+// obligation name in the report); native replay: recorded in the RSrc.
+#[cfg(kani)]
+#[allow(unused_macros)]
+macro_rules! chk {
+    ($s:expr, $c:expr, $l:literal) => {{
+        let _ = &$s;
+        assert!($c, $l)
+    }};
+}
+#[cfg(not(kani))]
+#[allow(unused_macros)]
+macro_rules! chk {
+    ($s:expr, $c:expr, $l:literal) => {
+        $s.chk($c, $l)
+    };
+}
+
 #[allow(dead_code)]
 pub trait Src {
     fn u8(&mut self) -> u8;
@@ -50,11 +68,15 @@ impl Src for KSrc {
     fn assume(&mut self, c: bool) {
         kani::assume(c)
     }
-    fn chk(&mut self, c: bool, label: &'static str) {
-        assert!(c, "{}", label)
+    fn chk(&mut self, c: bool, _label: &'static str) {
+        // harnesses use the chk! macro (Kani wants the assertion message as a literal); kept for completeness
+        assert!(c)
+    }
+    fn arr<const N: usize>(&mut self) -> [u8; N] {
+        kani::any()
     }
     fn reach(&mut self) {
-        kani::cover!(true, "reach_end")
+        kani::cover!(true, "reach_end");
     }
 }
 
@@ -103,7 +125,9 @@ impl Src for RSrc {
     }
     fn assume(&mut self, c: bool) {
         if !c {
+            // the candidate witness violates the precondition: stop before touching the real code
             self.rejected = true;
+            panic!("VERIF_WITNESS_REJECTED");
         }
     }
     fn chk(&mut self, c: bool, label: &'static str) {
